@@ -232,6 +232,13 @@ def run_case(case, obs):
                 obs.violation('scalar-has-len', 'len(scalar PixCoord) did not raise')
             except TypeError:
                 obs.ok(1, 'iter')
+            # ... and cannot be iterated, like the plain numbers it holds (an empty loop would silently drop the position)
+            for how, fn in (('list(p)', lambda: list(p)), ('for', lambda: [q for q in p]), ('zip', lambda: list(zip(p, p))), ('unpack', lambda: [*p])):
+                try:
+                    got = fn()
+                    obs.violation('scalar-iterable', f'{how} over a scalar PixCoord gave {got!r} instead of raising TypeError (iterating its x does)')
+                except TypeError:
+                    obs.ok(1, 'iter')
             return
         obs.check(len(p) == len(bx), 'len-mismatch', f'len {len(p)} vs {len(bx)}', 'iter')
         items = list(p)
